@@ -194,7 +194,7 @@ func work(ctx *runner.Ctx) {
 			if !ctx.Mine(idx) {
 				return true
 			}
-			if idx&0xff == 0 && ctx.Expired() {
+			if ctx.Expired() {
 				complete = false
 				return false
 			}
@@ -482,7 +482,7 @@ func histories(ctx *runner.Ctx) {
 				if !ctx.Mine(idx) {
 					continue
 				}
-				if idx&0xff == 0 && ctx.Expired() {
+				if ctx.Expired() {
 					return
 				}
 				k := cs{D: d, KeyLen: []int{16, 24, 32}[(x+di)%3], Seed: uint64(ctx.Seed) + uint64(x)*16, Hist: string(h), Input: -1}
